@@ -69,6 +69,18 @@ Theorem C04_zod_split : forall (cf : cfg) (c : cmd),
                   map fst vs = spec_value_keys cf c /\ map fst cs = spec_chan_keys cf c.
 Proof. exact zod_split_thm. Qed.
 
+(* project level: whatever else the files contain (helpers, other commands, names that are prefixes, suffixes or
+   infixes of one another, the same name in another file), every command gets exactly its own keys *)
+Theorem C04_project_keys : forall (cf : cfg) (m : mode) (p : project),
+  project_dom p = true ->
+  forall c r, In (c, r) (generate_project cf m p) -> kf_any cf c = false ->
+  exists g l, r = Ok g /\ invoke_keys g = Some l /\ Permutation (kb_of l) (spec_keys cf c).
+Proof. exact project_keys_thm. Qed.
+(* ... and the commands something is generated for are exactly the attributed functions, in file order *)
+Theorem C04_project_commands : forall (cf : cfg) (m : mode) (p : project),
+  map fst (generate_project cf m p) = flat_map commands_of p.
+Proof. exact project_commands. Qed.
+
 (* since the guard, generation never panics: every command, configuration string and mode *)
 Theorem C04_never_panics : forall (cf : cfg) (m : mode) (c : cmd), exists g, generate cf m c = Ok g.
 Proof. exact never_panics. Qed.
@@ -137,6 +149,14 @@ Example C04_ex_camel : forallb snake_char (L "a__b_1c_") = true /\ has_letter (L
   tauri_camel (L "a__b_1c_") = L "aB1c" /\ camel_b (L "__") = Panic /\ camel_guard (L "__") = L "__" /\
   tauri_snake (L "_a__b_") = L "a_b".
 Proof. vm_compute. repeat split; reflexivity. Qed.
+Example C04_ex_project :
+  project_dom ex_project = true /\
+  map (fun cr => (c_name (fst cr),
+                  match snd cr with Ok g => option_map kb_of (invoke_keys g) | Panic => None end))
+      (generate_project cfg_default Zod ex_project)
+  = [ (L "start_download", Some [(L "url", false); (L "onProgress", false)]);
+      (L "download", Some [(L "fileId", false); (L "destPath", true)]) ].
+Proof. exact ex_project_ok. Qed.
 Example C04_ex_kinds : ty_dom (APath [] NState (Some [GLife; GType])) = true /\
   spec_kind (APath [] NState (Some [GLife; GType])) = KInjected /\ spec_kind (APath [] NState None) = KValue.
 Proof. vm_compute. auto. Qed.
@@ -149,6 +169,8 @@ Print Assumptions C04_keys.
 Print Assumptions C04_optional.
 Print Assumptions C04_modes_agree.
 Print Assumptions C04_zod_split.
+Print Assumptions C04_project_keys.
+Print Assumptions C04_project_commands.
 Print Assumptions C04_never_panics.
 Print Assumptions C04_oracle_accepts.
 Print Assumptions C04_bare_window_refuted.
